@@ -193,9 +193,12 @@ def family_specs(tier: str) -> dict:
         "links": {
             "files": ["1", "65"],
             "links": True,
-            "outside": ["file-rel", "dir-rel", "up"] + ([] if q else ["file-abs", "dangling-rel"]),
+            # sib-*: into a SIBLING of the base directory whose name starts with the base's name (string-prefix trap)
+            "outside": ["file-rel", "dir-rel", "up", "sib-file"] + ([] if q else ["file-abs", "dangling-rel", "sib-dir"]),
             "cousins": not q,
         },
+        # three levels: same-named directories below different parents (a/a/f vs b/a/f)
+        "deep3": {"files": ["1", "65"], "links": False, "outside": [], "cousins": False, "deep3": True},
     }
 
 
@@ -230,6 +233,14 @@ def _nested_leaves(spec, sp, d, n):
 def enumerate_trees(spec, sp):
     """Complete product; returns (trees sorted by size, number dropped by the chain filter)."""
     a, b = sp["names"]
+    if spec.get("deep3"):
+        inner = [None, {}] + [{a: ("f", c)} for c in spec["files"]]
+        tops = [None] + [{n: v for n, v in zip((a, b), combo) if v is not None} for combo in itertools.product(inner, inner)]
+        out = []
+        for combo in itertools.product(tops, tops):
+            out.append({n: copy_tree(v) for n, v in zip((a, b), combo) if v is not None})
+        out.sort(key=lambda t: (tree_size(t), json.dumps(t, sort_keys=True)))
+        return out, 0
 
     def inner_dirs(d):
         opts = [[None] + _nested_leaves(spec, sp, d, n) + [{}] for n in (a, b)]
@@ -332,6 +343,10 @@ def _target(leaf, path, base, root, sp):
         return os.path.join(root, sp["ext_file"])
     if kind == "dangling-rel":
         return up + "nonexistent"
+    if kind == "sib-file":
+        return up + os.path.basename(base) + "_old/c"
+    if kind == "sib-dir":
+        return up + os.path.basename(base) + "_old"
     raise ValueError(kind)
 
 
@@ -346,6 +361,9 @@ def build(t, sp, order: str):
     with open(os.path.join(root, sp["ext_file"]), "wb") as f:
         f.write(b"outside")
     os.mkdir(os.path.join(root, sp["ext_dir"]))
+    os.mkdir(base + "_old")
+    with open(os.path.join(base + "_old", "c"), "wb") as f:
+        f.write(b"sibling")
     salt = sp["salt"]
 
     def mk(d, dirpath, path):
